@@ -92,6 +92,36 @@ CHECKS = {
         tech="property-based testing: invariant/validity predicates over result views + exhaustive outcome enumeration",
         ref="DESIGN.md section 3 / C15",
     ),
+    "C11": dict(
+        text="Generated-input search over call HISTORIES on one shared circuit object: after every one of 1-7 drawn library calls (five transformations, used-qubit analysis, text generation, emulation, output parsing) a deep structural fingerprint of the shared input (everything reachable, element identities, repr) must be unchanged and the call's outcome must equal the outcome on a freshly parsed copy.",
+        note=TRUST + "the fingerprint walks __dict__/list/dict/tuple/slice/ndarray; histories are drawn as lists (a rule-based state machine whose rules are the nine calls, replayable as JSON).",
+        tech="property-based testing over operation sequences: history invariant (deep snapshot) + differential against a fresh copy",
+        ref="DESIGN.md section 3 / C11",
+    ),
+    "C14": dict(
+        text="Generated-input search with single-fault injection: every boundary/out-of-range index (literal, let, override, macro argument), out-of-source alias slice, non-register indexing/aliasing, bad register size, duplicate definition, unknown gate / wrong arity / wrong kind (also after macro substitution) is injected into a valid program and the documented pipeline is driven stage by stage: rejection with JaqalError no later than the stage where the value becomes known, never a result, never another exception; the fault-free twin must pass and mean what the reference says; gate-definition precedence (injected > later import > earlier import) is enumerated exhaustively with on-disk pulse modules.",
+        note=TRUST + "vlib/pulses/moda.py, modb.py (on-disk pulse modules); the stage at which a value 'becomes known' is computed by the reference from what the failing check depends on (literal / let / macro argument).",
+        tech="property-based testing: fault injection with a reference validity predicate, staged-pipeline oracle, fault-free twins",
+        ref="DESIGN.md section 3 / C14",
+    ),
+    "C17": dict(
+        text="Generated-input search: programs of the fragment common to all front ends, with user names drawn from the auto-namer's own forms, are built through Q-syntax, text, S-expression and CircuitBuilder method calls; the four circuits must be pairwise == with identical generated text (Q-syntax up to the reference's wrap rule), auto-generated names must be fresh against user names of every kind.",
+        note=TRUST + "Q-syntax cannot express aliases, macros or parallel loop bodies: outside the fragment.",
+        tech="property-based testing: N-way differential between front ends + reference wrap rule + freshness predicate",
+        ref="DESIGN.md section 3 / C17",
+    ),
+    "C18": dict(
+        text="Bounded exhaustive enumeration + generated-input search: every signature of length <= 2 (quick) / <= 3 (thorough) over the five parameter kinds x every tuple of 15 value classes, plus wrong arities, is called positionally and by keyword and compared with a reference `fits` predicate; idle twins are checked structurally and by inserting idle gates into executable programs (state unchanged); stretched sets are checked for signature and exact equality of the ideal unitary with the parent's.",
+        note=TRUST + "non-finite floats offered to FLOAT/NONE parameters are not judged.",
+        tech="exhaustive enumeration of a finite call table + property-based metamorphic checks (idle insertion, stretch factor invariance)",
+        ref="DESIGN.md section 3 / C18",
+    ),
+    "C19": dict(
+        text="Generated-input search against a reference schedule: programs with alternating seq/par nesting to depth 6, uneven branches, empty blocks, subcircuits and loops, every gate tagged uniquely; the (tag, time step) multiset, loop atoms, subcircuit containers (start, count, duration), flatness of the output and header data must be preserved; a loop under a parallel block must raise JaqalError.",
+        note=TRUST + "vlib/refexec.schedule (unit-time model as stated in the property); loops are atoms of one step on both sides.",
+        tech="property-based testing: reference-model oracle (schedule as multiset) + structural validity predicate",
+        ref="DESIGN.md section 3 / C19",
+    ),
 }
 
 ORDER = [f"C{i:02d}" for i in range(1, 21)]
